@@ -910,6 +910,11 @@ func runBindClient(r *common.Run, local, reply, a, b string, class string) {
 }
 
 func runBindServer(r *common.Run, s2s bool, remote, reqid, reqres, cb, a string, class string) {
+	runBindServerTF(r, s2s, remote, reqid, reqres, cb, a, "", "", class)
+}
+
+// runBindServerTF: the request additionally carries to / from attributes ("" = absent).
+func runBindServerTF(r *common.Run, s2s bool, remote, reqid, reqres, cb, a, reqTo, reqFrom string, class string) {
 	rj, err := jid.Parse(remote)
 	if err != nil {
 		return
@@ -968,7 +973,14 @@ func runBindServer(r *common.Run, s2s bool, remote, reqid, reqres, cb, a string,
 	if reqres != "NONE" {
 		inner = "<bind xmlns='" + nsBind + "'><resource>" + nc.Esc(reqres) + "</resource></bind>"
 	}
-	req := "<iq type='set' id='" + nc.Esc(reqid) + "'>" + inner + "</iq>"
+	addr := ""
+	if reqTo != "" {
+		addr += " to='" + nc.Esc(reqTo) + "'"
+	}
+	if reqFrom != "" {
+		addr += " from='" + nc.Esc(reqFrom) + "'"
+	}
+	req := "<iq type='set' id='" + nc.Esc(reqid) + "'" + addr + ">" + inner + "</iq>"
 	conn := nc.NewConn(nc.S(nc.Header(xmlns, "", rj.String(), domain.String())), nc.S(req))
 	var s *xmpp.Session
 	var serr error
@@ -982,7 +994,13 @@ func runBindServer(r *common.Run, s2s bool, remote, reqid, reqres, cb, a string,
 	if reqres != "NONE" {
 		resField = hx(reqres)
 	}
-	line := fmt.Sprintf("binds %s %s %s %s %s %s %s", common.B(s2s), hx(remote), hx(reqid), resField, cb, hx(a), cbJid)
+	tf := func(raw string) string {
+		if raw == "" {
+			return "-"
+		}
+		return canonJ(raw)
+	}
+	line := fmt.Sprintf("binds %s %s %s %s %s %s %s %s %s", common.B(s2s), hx(remote), hx(reqid), resField, cb, hx(a), cbJid, tf(reqTo), tf(reqFrom))
 	lines := []string{r.Prop + " " + line}
 	if p != "" {
 		r.Line(line, "PANIC")
@@ -992,6 +1010,7 @@ func runBindServer(r *common.Run, s2s bool, remote, reqid, reqres, cb, a string,
 	}
 	streams, perr := nc.ParseWritten(conn.Written())
 	typ, id, jtxt, cond := "NOREPLY", "-", "-", "-"
+	repTo, repFrom := "", ""
 	rawJ := ""
 	nsOK := true
 	errInBind := false
@@ -1004,6 +1023,8 @@ func runBindServer(r *common.Run, s2s bool, remote, reqid, reqres, cb, a string,
 			typ, _ = e.AttrVal("type")
 			v, _ := e.AttrVal("id")
 			id = hx(v)
+			repTo, _ = e.AttrVal("to")
+			repFrom, _ = e.AttrVal("from")
 			if bd, ok := e.Child("bind"); ok {
 				if je, ok := bd.Child("jid"); ok {
 					rawJ = je.Text
@@ -1029,14 +1050,44 @@ func runBindServer(r *common.Run, s2s bool, remote, reqid, reqres, cb, a string,
 	if cbErr != nil && serr != nil && errors.Is(serr, cbErr) {
 		ec = "cberr"
 	}
+	for _, raw := range []string{reqTo, reqFrom} {
+		if raw == "" {
+			continue
+		}
+		if _, perr := jid.Parse(raw); perr != nil && serr != nil && strings.Contains(serr.Error(), perr.Error()) {
+			ec = "jiderr"
+		}
+	}
 	ready := s != nil && s.State()&xmpp.Ready != 0
-	obs := fmt.Sprintf("%s %s %s %s %s %s %s", typ, id, jtxt, cond, ec, common.B(ready), common.Join(cbArgs, ","))
+	obs := fmt.Sprintf("%s %s %s %s %s %s %s %s %s", typ, id, jtxt, cond, ec, common.B(ready), common.Join(cbArgs, ","), hx(repTo), hx(repFrom))
 	r.Line(line, obs)
 	r.Case(line, true, class+":"+ec)
 
 	// ---- oracle ----
 	if perr != nil {
 		r.Fail("bind-reply", "malformed-output", lines, perr.Error())
+	}
+	if typ != "NOREPLY" {
+		// the reply goes back where the request came from
+		cto, e1 := jidOrZero(reqTo)
+		cfrom, e2 := jidOrZero(reqFrom)
+		if e1 == nil && e2 == nil && (repTo != cfrom.String() || repFrom != cto.String()) {
+			r.Fail("bind-reply", "addresses-not-echoed", lines, fmt.Sprintf("request to=%q from=%q, reply to=%q from=%q", reqTo, reqFrom, repTo, repFrom))
+		}
+	}
+	if reqTo != "" || reqFrom != "" {
+		if _, e1 := jidOrZero(reqTo); e1 != nil && (typ != "NOREPLY" || ready) {
+			r.Fail("bind-reply", "invalid-request-address-accepted", lines, "request with an invalid to attribute was answered")
+		}
+		if _, e2 := jidOrZero(reqFrom); e2 != nil && (typ != "NOREPLY" || ready) {
+			r.Fail("bind-reply", "invalid-request-address-accepted", lines, "request with an invalid from attribute was answered")
+		}
+		if _, e1 := jidOrZero(reqTo); e1 != nil {
+			return
+		}
+		if _, e2 := jidOrZero(reqFrom); e2 != nil {
+			return
+		}
 	}
 	wantRes := reqres
 	if wantRes == "NONE" {
@@ -1437,6 +1488,19 @@ func Run(r *common.Run) error {
 			}
 		}
 	}
+	for _, s2s := range []bool{false, true} {
+		for _, to := range []string{"", "example.net", "EXAMPLE.net", "a@@b", "x'y@example.net/q<"} {
+			for _, from := range []string{"", "user@example.net/old", "other@example.org", "a@@b"} {
+				for _, cb := range []string{"nil", "echo", "serr", "err"} {
+					a := ""
+					if cb == "serr" {
+						a = "conflict"
+					}
+					runBindServerTF(r, s2s, "user@example.net", "i1", "home", cb, a, to, from, "binds-tofrom")
+				}
+			}
+		}
+	}
 	r.Exhaustive = append(r.Exhaustive, "every header variant (versions, namespaces, ids, addresses, element names, stream errors, junk prefixes) x role x framing x s2s, single and after a restart; every bind reply class x local address x assigned address; every bind request x callback kind")
 	return nil
 }
@@ -1467,12 +1531,23 @@ func replayLine(r *common.Run, l string) error {
 	case f[0] == "bindc" && len(f) == 7:
 		runBindClient(r, un(f[1]), f[2], un(f[3]), un(f[4]), "replay")
 		return nil
-	case f[0] == "binds" && len(f) == 8:
+	case f[0] == "binds" && len(f) == 10:
 		res := "NONE"
 		if f[4] != "NONE" {
 			res = un(f[4])
 		}
-		runBindServer(r, f[1] == "1", un(f[2]), un(f[3]), res, f[5], un(f[6]), "replay")
+		// the raw to/from of the request are not in the line (only their canonical forms):
+		// replay the canonical forms
+		tf := func(x string) string {
+			if x == "-" {
+				return ""
+			}
+			if x == "!" {
+				return "a@@b"
+			}
+			return un(x)
+		}
+		runBindServerTF(r, f[1] == "1", un(f[2]), un(f[3]), res, f[5], un(f[6]), tf(f[8]), tf(f[9]), "replay")
 		return nil
 	case f[0] == "nege" && len(f) >= 11:
 		var hs []string
